@@ -212,7 +212,12 @@ def scratch_vars(name):
     return set(re.findall(r'"([^"]+)"', m.group(1))) if m else set()
 
 
-DROP = set()      # set by check_graph / check_sim for the system at hand
+import threading
+_tl = threading.local()      # per-thread: the scratch variables of the system at hand (systems are checked concurrently)
+
+
+def _drop():
+    return getattr(_tl, "drop", set())
 
 
 def parse_state(text):
@@ -225,7 +230,7 @@ def parse_state(text):
         if not p:
             continue
         name, val = p.split("=", 1)
-        if name.strip() in DROP:
+        if name.strip() in _drop():
             continue
         pr = P(tokens(val))
         v = pr.value()
@@ -309,7 +314,7 @@ def _head(info, consts):
     name = info["name"]
     return ("From PGV Require Import C02.Lang C02.Sem C02.Show C02.Walk C02.TLC %s.%s_walkdefs.\nOpen Scope string_scope.\nOpen Scope Z_scope.\n"
             "Definition W : wsys := mkW (w_dgo (%s_W 0)) (w_dtla (%s_W 0)) [%s] (filter (fun x => negb (mem (fst x) [%s])) (w_init (%s_W 0))) (w_procs (%s_W 0)).\n"
-            % (G.GEN_NAME, name, name, name, "; ".join('("%s", %s)' % c for c in consts), "; ".join('"%s"' % v for v in sorted(DROP)), name, name))
+            % (G.GEN_NAME, name, name, name, "; ".join('("%s", %s)' % c for c in consts), "; ".join('"%s"' % v for v in sorted(_drop())), name, name))
 
 
 def _ensure(info, log):
@@ -343,8 +348,7 @@ def check_graph(info, sysd, spec, rng, max_states, log):
     e = _ensure(info, log)
     if e:
         return {"error": e}
-    global DROP
-    DROP = scratch_vars(info["name"])
+    _tl.drop = scratch_vars(info["name"])
     d, err = run_tlc(sysd, spec["cfg"], "graph")
     if err:
         return {"error": err}
@@ -395,8 +399,7 @@ def check_sim(info, sysd, spec, n_traces, depth, seed, max_steps, log, n_expand=
     e = _ensure(info, log)
     if e:
         return {"error": e}
-    global DROP
-    DROP = scratch_vars(info["name"])
+    _tl.drop = scratch_vars(info["name"])
     d, err = run_tlc(sysd, spec["cfg"], "sim", n_traces, depth, seed)
     if err:
         return {"error": err}
